@@ -69,19 +69,28 @@ struct Msg {
     n_lines: usize,
 }
 
+/// template `i` of a menu; indices beyond the menu are one long line of 255 / 256 / 257 / 65535 / 65536 / 65537 characters
+/// (a length kept in a narrow integer wraps there)
+fn tmpl(menu: &[&str], i: usize, fill: char) -> String {
+    match menu.get(i) {
+        Some(t) => t.to_string(),
+        None => fill.to_string().repeat(crate::props::c01::WIDTH_LIMITS[(i - menu.len()) % crate::props::c01::WIDTH_LIMITS.len()]),
+    }
+}
+
 fn wrap(c: &C19Case) -> Msg {
     let mut text = String::new();
     text.push_str(M_BEGIN);
     text.push('\n');
     for h in &c.headers {
-        text.push_str(HEADERS[*h]);
+        text.push_str(&format!("{}{}", if *h < HEADERS.len() { "" } else { "Comment: " }, tmpl(&HEADERS, *h, 'h')));
         text.push('\n');
     }
     text.push('\n');
     let after_blank = text.len();
     let mut payload = String::new();
     for p in &c.payload {
-        payload.push_str(PAYLOAD[*p]);
+        payload.push_str(&tmpl(&PAYLOAD, *p, 'v'));
         payload.push('\n');
     }
     text.push_str(&payload);
@@ -90,9 +99,9 @@ fn wrap(c: &C19Case) -> Msg {
     text.push('\n');
     let mut signature = String::new();
     for s in &c.sig {
-        text.push_str(SIGLINES[*s]);
+        text.push_str(&tmpl(&SIGLINES, *s, 'Q'));
         text.push('\n');
-        signature.push_str(SIGLINES[*s]);
+        signature.push_str(&tmpl(&SIGLINES, *s, 'Q'));
     }
     let end_marker = text.len();
     text.push_str(M_END);
@@ -152,7 +161,7 @@ impl Prop for C19 {
         "fault_enumeration"
     }
     fn rule(&self, _t: Tier) -> String {
-        "message family = every sequence of <= 2 armour headers x every sequence of <= 3 (thorough 4) payload lines from 15 templates (two ending in CR, empty, deb822, indented, header look-alike, Unicode, and all three markers behind a letter / blank / tab or followed by a blank) x every sequence of <= 2 signature lines from 6 (incl. an empty line and marker look-alikes); faults, ALL of them per message: no fault, truncation after every line (0..all), every trailing addition from 4, the payload alone and behind 4 armour-like first lines that are not the signed-message marker (unsigned passthrough), and for the sub-family with <= 1 header, <= 2 payload lines, <= 1 signature line every BYTE prefix; the expected result is computed from the construction offsets, never by re-scanning; all cases distinct; non-trivial = every case with a fault".into()
+        "message family = (a) one line of 255 / 256 / 257 / 65535 / 65536 / 65537 characters as payload line, signature line or armour header, with every line cut; (b) every sequence of <= 2 armour headers x every sequence of <= 3 (thorough 4) payload lines from 15 templates (two ending in CR, empty, deb822, indented, header look-alike, Unicode, and all three markers behind a letter / blank / tab or followed by a blank) x every sequence of <= 2 signature lines from 6 (incl. an empty line and marker look-alikes); faults, ALL of them per message: no fault, truncation after every line (0..all), every trailing addition from 4, the payload alone and behind 4 armour-like first lines that are not the signed-message marker (unsigned passthrough), and for the sub-family with <= 1 header, <= 2 payload lines, <= 1 signature line every BYTE prefix; the expected result is computed from the construction offsets, never by re-scanning; all cases distinct; non-trivial = every case with a fault".into()
     }
     fn bounds(&self, t: Tier) -> Value {
         json!({"headers": HEADERS, "payload_lines": PAYLOAD, "signature_lines": SIGLINES, "appends": APPENDS, "max_headers": 2, "max_payload_lines": t.pick(3, 4), "max_signature_lines": 2})
@@ -168,6 +177,21 @@ impl Prop for C19 {
         let ss = seqs(SIGLINES.len(), 2);
         let headers = hs[shard / ss.len()].clone();
         let sig = ss[shard % ss.len()].clone();
+        // one long line (lengths around the u8 / u16 limits) as payload line, as signature line, as armour header
+        if shard == 0 {
+            let n = crate::props::c01::WIDTH_LIMITS.len();
+            for j in 0..n {
+                for (h, p, sg) in [(vec![], vec![3, PAYLOAD.len() + j, 3], vec![0]), (vec![], vec![3], vec![0, SIGLINES.len() + j]), (vec![HEADERS.len() + j], vec![3], vec![0])] {
+                    let base = C19Case { headers: h, payload: p, sig: sg, fault: Fault::None };
+                    let m = wrap(&base);
+                    f(&base);
+                    for nl in 0..m.n_lines {
+                        f(&C19Case { fault: Fault::CutLines(nl), ..base.clone() });
+                    }
+                    f(&C19Case { fault: Fault::Append(0), ..base.clone() });
+                }
+            }
+        }
         for payload in seqs(PAYLOAD.len(), t.pick(3, 4)) {
             let base = C19Case { headers: headers.clone(), payload: payload.clone(), sig: sig.clone(), fault: Fault::None };
             let m = wrap(&base);
@@ -234,12 +258,12 @@ impl Prop for C19 {
                         (Err(_), Ok(_)) => "valid-message-rejected",
                         _ => "matching-error",
                     };
-                    vec![viol(clause, format!("input {:?}: got {:?}, expected {:?}", input, got, want))]
+                    vec![viol(clause, format!("input {}: got {}, expected {}", crate::strings::brief(&input), crate::strings::brief(&format!("{:?}", got)), crate::strings::brief(&format!("{:?}", want))))]
                 } else {
                     vec![]
                 }
             }
-            Err(p) => vec![viol("panic", format!("input {:?}: {}", input, panic_detail(&p)))],
+            Err(p) => vec![viol("panic", format!("input {}: {}", crate::strings::brief(&input), panic_detail(&p)))],
         }
     }
     fn shrinks(&self, c: &C19Case) -> Vec<C19Case> {
@@ -270,7 +294,7 @@ impl Prop for C19 {
         out
     }
     fn snippet(&self, c: &C19Case, v: &Viol) -> String {
-        format!("// C19 replay: {:?}\n// wrapped message: {:?}\n// clause {}: {}\n", c, wrap(c).text, v.clause, v.detail.replace('\n', "\\n"))
+        format!("// C19 replay: {:?}\n// wrapped message: {}\n// clause {}: {}\n", c, crate::strings::brief(&wrap(c).text), v.clause, v.detail.replace('\n', "\\n"))
     }
     fn required_outcomes(&self) -> Vec<&'static str> {
         vec!["unwrapped", "passthrough", "missing-payload", "missing-signature", "truncated-signature", "junk-after-signature"]
